@@ -143,7 +143,8 @@ class HeaderElement(with_metaclass(HeaderType)):
 					encoding = cls._sanitize_encoding(charset.decode('ASCII', 'replace'))
 					try:
 						key, value = key[:-1], Percent.unquote(value_).decode(encoding)
-					except UnicodeDecodeError as exc:
+						value.encode('UTF-8')  # some codecs (UTF-7) decode to lone surrogates, which is no text
+					except UnicodeError as exc:
 						raise InvalidHeader(_(u'%s') % (exc, ))
 				else:
 					value = value.decode('ISO8859-1')
@@ -231,8 +232,10 @@ class HeaderElement(with_metaclass(HeaderType)):
 		if b'=?' in value and b'"=?' not in value and b'==?' not in value:
 			# FIXME: must not parse encoded_words in unquoted ('Content-Type', 'Content-Disposition') header params
 			try:
-				return u''.join(atom.decode(cls._sanitize_encoding(charset or 'ISO8859-1')) if isinstance(atom, bytes) else atom for atom, charset in decode_header(value.decode('ISO8859-1'))), 'UTF-8'
-			except (UnicodeDecodeError, HeaderParseError, LookupError) as exc:  # LookupError: e.g. 'uu' is not a text encoding
+				text = u''.join(atom.decode(cls._sanitize_encoding(charset or 'ISO8859-1')) if isinstance(atom, bytes) else atom for atom, charset in decode_header(value.decode('ISO8859-1')))
+				text.encode('UTF-8')  # some codecs (UTF-7) decode to lone surrogates, which is no text
+				return text, 'UTF-8'
+			except (UnicodeError, HeaderParseError, LookupError) as exc:  # LookupError: e.g. 'uu' is not a text encoding
 				raise InvalidHeader(str(exc))
 		try:
 			return value.decode('ASCII'), 'ASCII'
